@@ -9,6 +9,7 @@ import (
 	"strings"
 
 	"verif/engine"
+	"verif/ref/yangstr"
 
 	"github.com/sdcio/yang-parser/parse"
 )
@@ -18,7 +19,7 @@ func init() {
 		Prop:   "C10",
 		Run:    run,
 		Replay: replay,
-		Rule: "E1 over token lists: statement trees (module header + sequences of body statements from a 10-item menu, containers nested to depth 3) are rendered from a token list while the generator records keyword, decoded argument, nesting and the line/column of every keyword; at every token boundary every trivia variant (nothing where legal, blank, tab, LF, CRLF, block comment, line comment) is inserted, one boundary at a time (two at a time in the thorough tier), and every argument is re-quoted (unquoted, single, double, '+' concatenation split at every position). " +
+		Rule: "E1 over token lists: statement trees (module header + sequences of body statements from an 11-item menu (one with a multi-line double-quoted argument whose value depends on the quote column, followed also by comments that repeat its raw text), containers nested to depth 3) are rendered from a token list while the generator records keyword, decoded argument, nesting and the line/column of every keyword; at every token boundary every trivia variant (nothing where legal, blank, tab, LF, CRLF, block comment, line comment) is inserted, one boundary at a time (two at a time in the thorough tier), and every argument is re-quoted (unquoted, single, double, '+' concatenation split at every position). " +
 			"The walk of Tree.Root via Children()/Statement()/Argument()/ErrorContext() must equal the generator's expectation exactly. Non-trivial = the variant contains a comment, a line break or a re-quoted argument.",
 		Bound: map[string]string{
 			"quick":    "all trees with <=2 body statements (containers with <=2 children, depth <=3) x every boundary x 7 trivia variants; all re-quotings",
@@ -33,6 +34,7 @@ type st struct {
 	arg  string // decoded value; "" with noArg = no argument
 	noArg bool
 	kids []*st
+	raw  string // when set: the argument is written as "raw" (double-quoted, multi-line); its value depends on the quote column
 }
 
 func leaf(name string) *st { return &st{kw: "leaf", arg: name, kids: []*st{{kw: "type", arg: "string"}}} }
@@ -51,6 +53,7 @@ func menu(i int) []*st {
 		{kw: "m:ext", arg: "an arg", kids: []*st{{kw: "m:sub", noArg: true}}},
 		{kw: "rpc", arg: n("r"), kids: []*st{{kw: "input", noArg: true, kids: []*st{leaf("i")}}}},
 		{kw: "container", arg: n("c")},
+		{kw: "leaf", arg: n("m"), kids: []*st{{kw: "type", arg: "string"}, {kw: "description", raw: "two\n" + strings.Repeat(" ", 100) + "words\n  end"}}},
 	}
 }
 
@@ -59,6 +62,8 @@ type token struct {
 	node int // index into expectation when this token is a keyword, else -1
 	sepBefore string // default separator before this token
 	glue bool // may be written without separator before it
+	rawOf int // >= 0: this token is the multi-line double-quoted argument of that node
+	raw   string
 }
 
 type expNode struct {
@@ -102,19 +107,21 @@ func flatten(root *st, reqNode int, reqForm string) ([]token, []expNode) {
 		}
 		idx := len(exp)
 		exp = append(exp, expNode{kw: s.kw, arg: s.arg, depth: depth})
-		toks = append(toks, token{text: s.kw, node: idx, sepBefore: " "})
-		if !s.noArg {
+		toks = append(toks, token{text: s.kw, node: idx, sepBefore: " ", rawOf: -1})
+		if s.raw != "" {
+			toks = append(toks, token{text: "\"" + s.raw + "\"", node: -1, sepBefore: " ", glue: true, rawOf: idx, raw: s.raw})
+		} else if !s.noArg {
 			form := quotings(s.arg, false)[0]
 			if idx == reqNode {
 				form = reqForm
 			}
-			toks = append(toks, token{text: form, node: -1, sepBefore: " ", glue: form[0] == '"' || form[0] == '\''})
+			toks = append(toks, token{text: form, node: -1, sepBefore: " ", glue: form[0] == '"' || form[0] == '\'', rawOf: -1})
 		}
 		if len(s.kids) == 0 {
-			toks = append(toks, token{text: ";", node: -1, sepBefore: "", glue: true})
+			toks = append(toks, token{text: ";", node: -1, sepBefore: "", glue: true, rawOf: -1})
 			return
 		}
-		toks = append(toks, token{text: "{", node: -1, sepBefore: " ", glue: true})
+		toks = append(toks, token{text: "{", node: -1, sepBefore: " ", glue: true, rawOf: -1})
 		for _, k := range s.kids {
 			if s.kw == "choice" && (k.kw == "leaf" || k.kw == "container" || k.kw == "leaf-list" || k.kw == "list") {
 				rec(k, -(depth + 1))
@@ -122,7 +129,7 @@ func flatten(root *st, reqNode int, reqForm string) ([]token, []expNode) {
 				rec(k, depth+1)
 			}
 		}
-		toks = append(toks, token{text: "}", node: -1, sepBefore: " ", glue: true})
+		toks = append(toks, token{text: "}", node: -1, sepBefore: " ", glue: true, rawOf: -1})
 	}
 	rec(root, 0)
 	return toks, exp
@@ -149,6 +156,12 @@ func render(toks []token, seps []string, exp []expNode) string {
 		}
 		if t.node >= 0 {
 			exp[t.node].line, exp[t.node].col = line, col
+		}
+		if t.raw != "" {
+			// RFC 6020 6.1.3: continuation lines are stripped up to the column of the opening quote
+			cur := b.String()
+			q := yangstr.Width(cur[strings.LastIndex(cur, "\n")+1:])
+			exp[t.rawOf].arg, _ = yangstr.DecodeDouble(t.raw, q)
 		}
 		write(t.text)
 	}
@@ -286,7 +299,12 @@ func run(c *engine.Ctx) {
 		do(fmt.Sprintf("base:%d", ti), render(toks, base, e0), e0, false)
 		twoAtATime := !c.Quick() && len(toks) < 60
 		for b := 1; b < len(toks); b++ {
-			for vi, tv := range trivia {
+			tvs := trivia
+			if toks[b-1].raw != "" {
+				// a comment that repeats the raw text of the string before it
+				tvs = append(append([]string{}, trivia...), " /* "+toks[b-1].raw+" */ ", "/*\""+toks[b-1].raw+"\"*/")
+			}
+			for vi, tv := range tvs {
 				if tv == "" && !(toks[b].glue || toks[b-1].text == "{" || toks[b-1].text == "}" || toks[b-1].text == ";" || toks[b-1].glue && toks[b-1].text != toks[b-1].text) {
 					continue
 				}
@@ -315,7 +333,7 @@ func run(c *engine.Ctx) {
 			seps := append([]string{}, base...)
 			text := render(toks, seps, e)
 			// leading trivia shifts every position: recompute by rendering with a prefix token
-			pt := append([]token{{text: strings.TrimRight(tv, ""), node: -1}}, toks...)
+			pt := append([]token{{text: strings.TrimRight(tv, ""), node: -1, rawOf: -1}}, toks...)
 			ps := append([]string{""}, base...)
 			ps[1] = ""
 			e2 := append([]expNode{}, exp...)
